@@ -1,10 +1,14 @@
 #!/bin/bash
-# Developer tool: run every behaviour-preserving change under /verif/refactors through all checks.
+# Developer tool: run every behaviour-preserving change under /verif/refactors (or those matching $1)
+# through all checks, 8 at a time.
 cd /verif
-for d in refactors/*/; do
-  id=$(basename $d)
+one() {
+  d=$1; id=$(basename $d)
   out=$(tools/refrun.sh $d/patch.diff 2>&1)
   if echo "$out" | grep -q "SILENT"; then echo "SILENT      $id"
-  elif echo "$out" | grep -q "FALSE-ALARM"; then echo "FALSE-ALARM $id  $(echo "$out" | grep FALSE-ALARM | sed -E 's/.*property=(C[0-9]+) +[^ ]+ ([^:]+):.*/\1:\2/' | sort -u | tr '\n' ' ' | cut -c1-200)"
-  else echo "UNDECIDED   $id  $(echo "$out" | grep UNDECIDED | sed -E 's/.*property=(C[0-9]+) ([^:]+):.*/\1:\2/' | sort -u | tr '\n' ' ' | cut -c1-200)"; fi
-done
+  elif echo "$out" | grep -q "FALSE-ALARM"; then echo "FALSE-ALARM $id  $(echo "$out" | grep FALSE-ALARM | sed -E 's/.*property=(C[0-9]+) +[^ ]+ ([^:]+):.*/\1:\2/' | sort -u | tr '\n' ' ' | cut -c1-300)"
+  elif echo "$out" | grep -q "REF: patch does not apply"; then echo "NOAPPLY     $id"
+  else echo "UNDECIDED   $id  $(echo "$out" | grep UNDECIDED | sed -E 's/.*property=(C[0-9]+) ([^:]+):.*/\1:\2/' | sort -u | tr '\n' ' ' | cut -c1-300)"; fi
+}
+export -f one
+ls -d refactors/*/ | grep "${1:-.}" | xargs -P 8 -I{} bash -c 'one {}' | sort -k2
